@@ -1,8 +1,27 @@
-(* Property C10: the reference checker against the declarative well-formedness judgement. *)
+(* Property C10: static checks accept exactly the well-formed programs and name the right error.
+
+   `Model.defects` is the reference checker; `FactsTop.WF` the declarative well-formedness judgement:
+     symbols   WFsym    every name declared once; uses have a right kind and the right argument number
+     scopes    ScBlock  along control-flow paths: then-statements introduce no variable / wildcard
+                        (except `x := t!` with x new), pattern arguments are fresh variables
+     once      OnBlock  every variable occurs twice where it is visible
+     typing    TyAtom   `HasType sg rho t T` for a type assignment rho to the rule's bindings
+     epic/surj SurjPath on every path every term of a then-statement is derivably congruent (Cong) to a
+                        term present earlier, the term of `t!` excepted
+     enums     EnBlock  terms made defined in an enum type are constructor applications; the patterns of
+                        a match belong to one enum and cover it.
+
+   Proved: exactness for symbols, scopes, once-only; exactness of the type check for a given type
+   assignment; soundness of acceptance for everything (C10_accept_sound_partial).
+   Not proved (Definitions ..._full below): that type inference finds an assignment whenever one exists
+   and it is determined, and that the congruence closure finds every derivable congruence.  These two are
+   validated by the typed generator (checks/c10.py), not proved. *)
 From Coq Require Import List NArith.
-From Static Require Import Model Run FactsBase FactsSymbols FactsScope.
+From Static Require Import Model Run FactsBase FactsSymbols FactsScope FactsTyping FactsResolve FactsCC FactsEnum FactsTop.
 Import ListNotations.
 Open Scope N_scope.
+
+(* ---------------------------------------------------------------- exact passes *)
 
 Theorem C10_symbols_exact : forall p, symbol_defects p = [] <-> WFsym p.
 Proof. exact symbol_defects_exact. Qed.
@@ -15,3 +34,164 @@ Print Assumptions C10_scopes_exact.
 Theorem C10_once_exact : forall b, once_block [] b = [] <-> OnBlock [] b.
 Proof. exact once_block_exact. Qed.
 Print Assumptions C10_once_exact.
+
+(* for a given assignment of types to bindings the type pass is exact *)
+Theorem C10_typing_check_exact : forall sg rho st atoms,
+  Unique sg -> Forall (SymAtom sg) atoms ->
+  (type_defects sg rho st atoms = [] <-> Forall (TyAtom sg rho) atoms).
+Proof. exact type_defects_exact. Qed.
+Print Assumptions C10_typing_check_exact.
+
+(* ---------------------------------------------------------------- sound passes *)
+
+Theorem C10_typing_sound : forall sg rho st atoms,
+  Unique sg -> Forall (SymAtom sg) atoms -> type_defects sg rho st atoms = [] -> Forall (TyAtom sg rho) atoms.
+Proof. exact type_defects_sound. Qed.
+Print Assumptions C10_typing_sound.
+
+(* the partition of the congruence closure only identifies derivably congruent terms *)
+Theorem C10_congruence_sound : forall E st a,
+  Inv E st -> Inv (E ++ ueqs a) (cc_step st a).
+Proof. exact cc_step_Inv. Qed.
+Print Assumptions C10_congruence_sound.
+
+Theorem C10_surjectivity_sound : forall rb, surj_defects rb = [] -> SurjRule rb.
+Proof. exact surj_defects_sound. Qed.
+Print Assumptions C10_surjectivity_sound.
+
+Theorem C10_enums_sound : forall sg rho st occ rb,
+  Unique sg -> enum_block sg (types_of sg rho st occ) rb = [] -> EnBlock sg rho rb.
+Proof. exact enum_block_sound. Qed.
+Print Assumptions C10_enums_sound.
+
+(* ---------------------------------------------------------------- the property *)
+
+(* accepted programs are well-formed *)
+Theorem C10_accept_sound_partial : forall p, defects p = [] -> WF p.
+Proof. exact defects_nil_WF. Qed.
+Print Assumptions C10_accept_sound_partial.
+
+(* what the exact passes report is a defect: the program is not well-formed *)
+Theorem C10_reject_sound_symbols_partial : forall p d, In d (symbol_defects p) -> ~ WF p.
+Proof. exact symbol_defect_not_WF. Qed.
+Print Assumptions C10_reject_sound_symbols_partial.
+
+Theorem C10_reject_sound_scopes_partial : forall p l n body d,
+  In (DRule l n body) p -> In d (scope_block [] body ++ once_block [] body) -> ~ WF p.
+Proof. exact scope_defect_not_WF. Qed.
+Print Assumptions C10_reject_sound_scopes_partial.
+
+(* Full statements, NOT proved.
+
+   WF asks for *some* type assignment; the language asks for a *determined* one (a variable that no
+   atom constrains has no type: `if x = y;`).  Determined = all assignments that type the rule agree on
+   the rule's bindings. *)
+Definition Determined (sg : list sym) (body : block) : Prop :=
+  forall rho1 rho2 x,
+    Forall (TyAtom sg rho1) (all_atoms_block (fst (resolve body))) ->
+    Forall (TyAtom sg rho2) (all_atoms_block (fst (resolve body))) ->
+    x < snd (resolve body) -> 1 <= x -> assoc x rho1 = assoc x rho2.
+
+Definition WFfull (p : prog) : Prop :=
+  WF p /\ forall l n body, In (DRule l n body) p -> Determined (symbols p) body.
+
+(* missing for C10_exact_full: (1) completeness of `infer` (principal types: if a determined assignment
+   exists, the propagation finds it), (2) completeness of the congruence closure (`Cong E s o` for nodes s, o
+   implies that `close` put them into one class), (3) exactness instead of soundness of the enum pass, which
+   follows from (1) because `types_of` is a singleton when there is no type conflict *)
+Definition C10_exact_full : Prop := forall p, defects p = [] <-> WFfull p.
+
+(* every reported defect is one: class-and-line level statement for all passes *)
+Definition C10_defects_sound_full : Prop := forall p d, In d (defects p) -> ~ WFfull p.
+
+(* ---------------------------------------------------------------- non-vacuity *)
+
+(* eqlog-test-eval/src/matches.eql: an enum, a match with a pattern variable, the same name bound again
+   after the match *)
+Definition ex_matches : prog :=
+  [DType 1 1; DPred 2 2 [1]; DPred 3 3 [1]; DEnum 5 4 [(6, 5, []); (7, 6, [1])];
+   DRule 10 (Some 7) (blk [SIf 11 (IType (Var 11 8) 4);
+     SMatch 12 (Var 12 8) (css [(App 13 5 [], (blk [])); (App 14 6 [Var 14 9], (blk [SThen 15 (TPred 2 [Var 15 9])]))]);
+     SIf 20 (IType (Var 20 9) 1); SThen 21 (TPred 3 [Var 21 9])])].
+
+Example ex_matches_accepted : defects ex_matches = [].
+Proof. vm_compute. reflexivity. Qed.
+
+Example ex_matches_WF : WF ex_matches.
+Proof. exact (defects_nil_WF ex_matches ex_matches_accepted). Qed.
+
+(* error test surjectivity-violation-branch: foo(x) is asserted in one block of the branch only *)
+Definition ex_surj_branch : prog :=
+  [DType 1 1; DFunc 2 2 [1] 1; DFunc 3 3 [1] 1;
+   DRule 5 None (blk [SIf 6 (IType (Var 6 4) 1);
+     SBranch 7 (blks [(blk [SIf 8 (IDef (App 8 2 [Var 8 4]))]); (blk [])]);
+     SThen 11 (TEq (App 11 2 [Var 11 4]) (App 11 3 [Var 11 4]))])].
+
+Example ex_surj_branch_rejected : In (SurjectivityViolation, [11]) (defects ex_surj_branch).
+Proof. vm_compute. tauto. Qed.
+
+(* symbols: both sides of the exact theorem are inhabited *)
+Example ex_dup_rejected : symbol_defects [DType 1 1; DPred 2 1 []] = [(SymbolDeclaredTwice, [2])].
+Proof. vm_compute. reflexivity. Qed.
+
+Example ex_dup_not_WF : ~ WF [DType 1 1; DPred 2 1 []].
+Proof. apply (symbol_defect_not_WF _ (SymbolDeclaredTwice, [2])). vm_compute. tauto. Qed.
+
+Example ex_scope_rejected :
+  scope_block [] (blk [SIf 1 (IType (Var 1 1) 9); SThen 2 (TEq (Var 2 1) (Var 2 2))]) = [(VarIntroducedInThen, [2])].
+Proof. vm_compute. reflexivity. Qed.
+
+Example ex_once_rejected :
+  once_block [] (blk [SIf 1 (IPred 5 [Var 1 1; Var 1 2]); SThen 2 (TPred 6 [Var 2 1])]) = [(VariableOccursOnlyOnce, [1])].
+Proof. vm_compute. reflexivity. Qed.
+
+(* ---------------------------------------------------------------- the four findings (see corpus/C10/finding-*.json)
+
+   What the reference says about the inputs on which the compiler of the unchanged tree deviates. *)
+
+(* nested-last-branch: foo(x) is asserted on every path; the compiler rejects line 14 *)
+Definition finding_nested_last_branch : prog :=
+  [DType 1 1; DFunc 2 2 [1] 1;
+   DRule 3 None (blk [SIf 4 (IType (Var 4 3) 1);
+     SBranch 5 (blks [(blk [SBranch 6 (blks [(blk [SIf 7 (IDef (App 7 2 [Var 7 3]))]); (blk [SIf 9 (IDef (App 9 2 [Var 9 3]))])])]);
+                      (blk [SIf 12 (IDef (App 12 2 [Var 12 3]))])]);
+     SThen 14 (TEq (App 14 2 [Var 14 3]) (App 14 2 [Var 14 3]))])].
+
+Example finding_nested_last_branch_is_WF : defects finding_nested_last_branch = [] /\ WF finding_nested_last_branch.
+Proof. assert (H : defects finding_nested_last_branch = []) by (vm_compute; reflexivity). split; [exact H | exact (defects_nil_WF _ H)]. Qed.
+
+(* then-defined-self-reference: `then y := foo(y)!`; the compiler accepts and then panics *)
+Definition finding_self_reference : prog :=
+  [DType 1 1; DFunc 2 2 [1] 1;
+   DRule 3 None (blk [SIf 4 (IType (Var 4 3) 1); SThen 5 (TDef (Some (Var 5 4)) (App 5 2 [Var 5 4])); SThen 6 (TEq (Var 6 3) (Var 6 4))])].
+
+Example finding_self_reference_not_WF : ~ WF finding_self_reference.
+Proof.
+  eapply (scope_defect_not_WF finding_self_reference 3 None _ (VarIntroducedInThen, [5])).
+  - unfold finding_self_reference. right. right. left. reflexivity.
+  - vm_compute. tauto.
+Qed.
+
+(* empty-match-dead-code: p expects type 2, y has type 1, after `match x {}`; the compiler accepts *)
+Definition finding_empty_match : prog :=
+  [DType 1 1; DType 2 2; DEnum 3 3 []; DPred 4 4 [2];
+   DRule 5 None (blk [SIf 6 (IType (Var 6 5) 3); SIf 7 (IType (Var 7 6) 1); SMatch 8 (Var 8 5) (css []); SThen 9 (TPred 4 [Var 9 6])])].
+
+Example finding_empty_match_rejected : In (ConflictingTermType, [9; 7; 9]) (defects finding_empty_match).
+Proof. vm_compute. tauto. Qed.
+
+(* dup-func-blames-types: the second declaration of function 3 is at line 4; the compiler blames line 2 *)
+Definition finding_dup_func : prog := [DType 1 1; DType 2 2; DFunc 3 3 [2] 1; DFunc 4 3 [] 2].
+
+Example finding_dup_func_line : defects finding_dup_func = [(SymbolDeclaredTwice, [4])].
+Proof. vm_compute. reflexivity. Qed.
+
+(* match-discriminee-scope-leak: the z of the first block (line 7) occurs once; the compiler accepts *)
+Definition finding_discriminee_leak : prog :=
+  [DType 1 1; DType 2 2; DEnum 3 3 [(3, 4, []); (3, 5, [1])]; DPred 4 6 [2];
+   DRule 5 None (blk [SBranch 6 (blks [
+     (blk [SMatch 7 (Var 7 7) (css [(App 7 4 [], (blk [])); (App 7 5 [Wild 7], (blk []))])]);
+     (blk [SIf 9 (IPred 6 [Var 9 7]); SIf 10 (IPred 6 [Var 10 7])])])])].
+
+Example finding_discriminee_leak_rejected : defects finding_discriminee_leak = [(VariableOccursOnlyOnce, [7])].
+Proof. vm_compute. reflexivity. Qed.
